@@ -72,16 +72,14 @@ int main()
         vh::case_alarm(60);
         auto f = vh::fields(line);
         vk::Space sp = vk::parse_space(f);
-        std::vector<int> data(sp.N);
-        for (int i = 0; i < sp.N; i++)
-            data[i] = i;
+        std::vector<int> data = sp.range(); // identity, or the elements given by rng=
         int k = std::stoi(f["k"]);
         bool check = f.count("check") && f["check"] == "1";
         std::string a = run(Brute, data, sp, k, check);
         std::string b = run(VpTree, data, sp, k, check);
         std::string c = run(CoverTree, data, sp, k, check);
         std::cout << "brute=" << a << " vptree=" << b << " covertree=" << c << " same=" << ((a == b && b == c) ? 1 : 0)
-                  << std::endl;
+                  << sp.foreign_suffix() << std::endl;
     }
     return 0;
 }
